@@ -14,6 +14,8 @@ batch in-process and observed after every batch (emitted frame + the accumulate 
   cum       sdf.cumsum/cumprod/cummin/cummax  vs Lean `cumStep`  (outputs and carried row)
   exp       sdf.expanding().<agg>()           vs Lean `expStep`  (value and rows kept)
   ewm       sdf.ewm(com|alpha|span).mean()    vs Lean `ewmStep`  (value, old_wt, is_first)
+  ewm+NaN   the same on tables WITH NaN cells  vs Lean `ewmStepNan` (value, old_wt, is_first: the model of the
+            recorded finding `ewm-nan-unsupported`), and pandas vs the Lean NaN specification `ewmAtNan` at every row
 
 and the Lean one-pass definitions (`rollWhole`, `cumWhole`, …) are compared with pandas in one
 pass over the concatenation.  The model-free oracle is the property statement itself:
@@ -251,8 +253,6 @@ def model_lines(case):
     """One block per column: reset, one `batch` per batch, one `whole`."""
     lines = []
     n = len(case["times"])
-    if case["kind"] == "ewm" and has_nan(case):
-        return lines      # outside the model (no NaN handling in EWMean): oracle only
     for c in columns_of(case):
         kind = case["kind"]
         if kind == "rolling":
@@ -271,6 +271,9 @@ def model_lines(case):
             elif kind == "exp":
                 hdr = {"op": "reset", "model": "exp", "agg": "var" if case["agg"] == "std" else case["agg"],
                        "ddof": case.get("ddof", 1)}
+            elif kind == "ewm" and has_nan(case):
+                # the defect-mirroring model of the finding ewm-nan-unsupported + the pandas NaN specification
+                hdr = {"op": "reset", "model": "ewmnan", "q": ewm_q(case)}
             elif kind == "ewm":
                 hdr = {"op": "reset", "model": "ewm", "q": ewm_q(case)}
             else:
@@ -511,6 +514,56 @@ def check_case(ctx, case, answers):
                                     % (case["param"], case["pval"], c, k, sizes, obs[k]["out"][c], p, want), case,
                                     expected=want, observed=obs[k]["out"][c],
                                     oracle="emitted row == df.ewm(...).mean().iloc[rows so far - 1] (nothing before the first row)")
+            if model_blocks is not None and nan_table:
+                # NaN cells: the real streamz output must be the NaN-aware model of EWMean (`ewmStepNan`: NaN is
+                # absorbing per column, old_wt keeps counting) and the real pandas output must be the Lean NaN
+                # specification (`ewmAtNan`) at every row
+                good = True
+                for c in cols:
+                    blk = model_blocks[c]
+                    want_col = col_values(expected, c, frame)
+                    p = 0
+                    for k, o in enumerate(obs):
+                        p += sizes[k]
+                        m = blk[1 + k]
+                        mout = [rat(v) for v in m["out"]]
+                        mpd = [rat(v) for v in m["pandas"]]
+                        if not close_list(o["out"][c], mout):
+                            good = False
+                            ctx.disagreement("ewm (NaN cells) batch %d col %s: impl %r NaN-aware model %r" % (k, c, o["out"][c], mout), case)
+                        elif not close(o["old_wt"], rat(m["old_wt"])) or o["is_first"] != m["is_first"]:
+                            good = False
+                            ctx.disagreement("ewm (NaN cells) state after batch %d: impl old_wt=%r is_first=%r, model %r %r"
+                                             % (k, o["old_wt"], o["is_first"], m["old_wt"], m["is_first"]), case)
+                        elif o["rows"] != p or m["rows"] != p:
+                            good = False
+                            ctx.disagreement("ewm (NaN cells) window keeps %r rows, model %r, seen %r" % (o["rows"], m["rows"], p), case)
+                        elif not close_list(mpd, [] if p == 0 else [want_col[p - 1]]):
+                            good = False
+                            ctx.disagreement("ewm (NaN cells) pandas at row %d col %s: pandas %r NaN specification %r"
+                                             % (p - 1, c, want_col[p - 1] if p else None, mpd), case)
+                        if not good:
+                            break
+                    if good:
+                        mw = [rat(v) for v in blk[-1]["out"]]
+                        if not close_list(mw, want_col):
+                            good = False
+                            ctx.disagreement("one-pass ewm (NaN cells) col %s: pandas %r NaN specification %r" % (c, want_col, mw), case)
+                    if not good:
+                        break
+                if good:
+                    ctx.count("ewm:nan:compared-with-model")
+                    if failed:
+                        ctx.count("ewm:nan:streamz-differs-from-pandas")
+                    if any(v is None for c in cols for v in case[c][:1]):
+                        ctx.count("ewm:nan:leading")
+                    if any(case[c][i] is None and case[c][i + 1] is None for c in cols for i in range(n - 1)):
+                        ctx.count("ewm:nan:consecutive")
+                    if any(v is None for c in cols for v in case[c][-1:]):
+                        ctx.count("ewm:nan:trailing")
+                    if ewm_q(case)[0] == 0:
+                        ctx.count("ewm:nan:alpha=1")
+                    ctx.coverage["traces_validated_against_impl"] += 1
             if model_blocks is not None and not nan_table:
                 good = True
                 for c in cols:
@@ -686,6 +739,15 @@ CORPUS = [
     {"kind": "ewm", "param": "com", "pval": [1, 1], "frame": "df", "times": [0, 1, 2], "x": [1, 2, 3], "y": [2, 3, 4], "sizes": [0, 1, 2]},
     {"kind": "ewm", "param": "alpha", "pval": [1, 4], "frame": "series", "times": [0, 1, 2, 3], "x": [1, 2, 3, 0], "y": [0, 0, 0, 0], "sizes": [0, 0, 3, 0, 1]},
     {"kind": "ewm", "param": "span", "pval": [3, 1], "frame": "df", "times": [0, 1, 2, 3], "x": [4, 0, 3, 1], "y": [2, 2, 1, 0], "sizes": [2, 0, 1, 1]},
+    # ewm on tables with NaN cells (finding ewm-nan-unsupported; compared with the NaN-aware model and the NaN spec):
+    # the witness of Props/C11 `ewm_nan_divergence_witness` row by row and as one batch; leading / consecutive /
+    # trailing NaN; alpha = 1 (q = 0: a NaN row repeats the previous value in pandas); an all-NaN column
+    {"kind": "ewm", "param": "alpha", "pval": [1, 2], "frame": "series", "times": [0, 1, 2], "x": [1, None, 3], "y": [0, 0, 0], "sizes": [1, 1, 1]},
+    {"kind": "ewm", "param": "alpha", "pval": [1, 2], "frame": "df", "times": [0, 1, 2], "x": [1, None, 3], "y": [1, 2, 3], "sizes": [3]},
+    {"kind": "ewm", "param": "com", "pval": [1, 1], "frame": "df", "times": [0, 1, 2, 3, 4, 5, 6], "x": [None, None, 1, None, None, 2, None],
+     "y": [1, None, None, 4, None, None, None], "sizes": [0, 2, 0, 3, 2]},
+    {"kind": "ewm", "param": "alpha", "pval": [1, 1], "frame": "df", "times": [0, 1, 2, 3, 4], "x": [None, 2, None, 3, None], "y": [2, None, None, None, 1], "sizes": [1, 2, 2]},
+    {"kind": "ewm", "param": "span", "pval": [3, 1], "frame": "df", "times": [0, 1, 2], "x": [1, 2, None], "y": [None, None, None], "sizes": [2, 1]},
     # rolling: window longer than every batch, empty batches, NaN at the boundary, duplicates in the index
     {"kind": "rolling", "win": "count", "W": 3, "agg": "sum", "frame": "df", "times": [0, 1, 1, 3, 4, 6, 6],
      "x": [1, 3, 2, 1, None, 1, 1], "y": [None, None, 1, 2, 3, None, 1], "sizes": [0, 1, 0, 1, 2, 1, 2]},
@@ -767,14 +829,15 @@ def ewm_nan_cases(ctx, count):
     rng = ctx.rng
     cases = []
     for _ in range(count):
-        n = rng.choice([2, 3, 5])
-        table = gen_table(rng, n, nan_p=0.4)
+        n = rng.choice([2, 3, 5, 7])
+        table = gen_table(rng, n, nan_p=rng.choice([0.2, 0.4, 0.6]))
         if not any(v is None for v in table["x"] + table["y"]):
             table["x"][rng.randrange(n)] = None
         p = ewm_params(rng)
         p["allow_nan"] = True
         c = make_case(rng, p, table, gen_sizes(rng, table))
-        c["frame"] = "df"
+        if c["frame"] == "series" and not any(v is None for v in table["x"]):
+            c["frame"] = "df"
         cases.append(c)
     return cases
 
@@ -798,19 +861,19 @@ def run(ctx):
         "rolling std is modelled as sqrt of the modelled var; `aggregate` is exercised with the function names sum/max/mean",
         "expanding emits one value per batch: the reference is pandas expanding(min_periods=0).agg() at the last row seen so far (identical to expanding().agg() as soon as a valid value has been seen; before that sum/count give 0 where pandas' default min_periods=1 gives NaN); the expanding var theorem is stated on the moment formula, its agreement with pandas' var is checked here numerically",
         "expanding var/std are exercised on frames only: on a single column aggregations.Var divides python ints 0/0 when the stream is built from an empty example (ZeroDivisionError; property C06 makes no claim there). expanding mean on a single column is exercised; its zero-count case (signature expanding-mean-zero-count) is the aggregations.Mean defect shared with C06/C07",
-        "ewm: NaN-free tables for model and theorems; EWMean has no NaN handling (reported under the signature ewm-nan-unsupported); com/alpha/span with rational values (halflife is irrational and not exercised)",
+        "ewm: the batching theorems are for NaN-free tables; EWMean has no NaN handling (reported under the signature ewm-nan-unsupported). Tables with NaN cells are compared with the defect-mirroring model ewmStepNan (real streamz output, old_wt, is_first) and real pandas with the NaN specification ewmAtNan (adjust=True, ignore_na=False), tolerance 1e-9; com/alpha/span with rational values (halflife is irrational and not exercised)",
         "expanding size/value_counts/full/apply and rolling on grouped frames are not covered",
     ]
     if ctx.thorough():
         cases = list(CORPUS)
         cases += exhaustive_cases(ctx, EXHAUSTIVE_TABLES + [gen_table(ctx.rng, 7) for _ in range(7)], 7, 6)
         cases += random_cases(ctx, 15000)
-        cases += ewm_nan_cases(ctx, 30)
+        cases += ewm_nan_cases(ctx, 600)
     else:
         cases = list(CORPUS)
         cases += exhaustive_cases(ctx, EXHAUSTIVE_TABLES[:2], 6, 3)
         cases += random_cases(ctx, 3000)
-        cases += ewm_nan_cases(ctx, 6)
+        cases += ewm_nan_cases(ctx, 60)
     # run in slices so that a driver failure is cheap to locate
     for i in range(0, len(cases), 4000):
         run_cases(ctx, cases[i:i + 4000])
